@@ -417,7 +417,14 @@ def rule_table_routing(ctx):
     C13.rule_R2(R.Retag(ctx, "C13."))
 
 
+def rule_twins(ctx):
+    """R1: the IPv4 and IPv6 copies of every per-packet function route sides, roles and lookups identically"""
+    from . import _twins as TW
+    TW.twin_agreement(ctx, ctx.program, "R1", ("huginn_net_tcp", "huginn_net_http", "huginn_net_tls", "huginn_net"))
+
+
 def run(ctx):
+    rule_twins(ctx)
     rule_table_routing(ctx)
     rule_link_order(ctx)
     rule_endpoints(ctx)
